@@ -1,6 +1,7 @@
 import Proofs.C02
 import Proofs.C03
 import Proofs.GroupAlignLemmas
+import Proofs.GroupWeightLemmas
 
 /-!
 # C05 — alignment result is independent of the reference plane; groups move rigidly
@@ -770,3 +771,206 @@ example :
 end groupAlign
 
 end TW.C05
+
+/-! ### group-level weight theorems (zero-weight sources of any member; exactness from the weighted pairs only) -/
+
+/-! ## Property theorems (C09 / C01 at group level)
+
+They are stated about `TW.GA.groupAlignToRef` and therefore cannot live in `Proofs/C09.lean` or `Proofs/C01.lean`:
+`Proofs/C09.lean` is imported by `Proofs/GroupCatLemmas.lean` → `Proofs/C11.lean` → `Proofs/GroupAlignLemmas.lean`
+(import cycle).  They continue the section `groupAlign` of `Proofs/C05.lean` (where `group_align_weights` and
+`group_align_exact_general` live, for the same reason) and are in its namespace. -/
+namespace TW.C05
+open TW TW.GC TW.GCL TW.GA TW.GAL TW.GWL
+section groupWeights
+variable {K : Type} [Field K] [LinearOrder K] [IsStrictOrderedRing K]
+
+/-- **zero-weight sources are irrelevant at group level (two runs; any corrector class, any fit geometry, metric,
+`nclip`, `sigma`, `clip_accum`, `minobj`).**  Two groups with the same corrector states member by member (`hcorr`),
+whose group catalogs `st1` and `{st1 with rows := rows2}` have the same number of rows and the same weight column,
+`matched_ref_id` bookkeeping and member lengths, aligned to the same reference catalog with the same matcher answer
+`(mref, minput)` and the same options.  The rows — pixel coordinates `x, y` AND sky coordinates `RA, DEC`, hence
+the tangent-plane coordinates — may differ ARBITRARILY, except that (`hag`) for every matched pair `k` whose group
+row `i = minput[k]` and reference row `j = mref[k]` both carry a positive weight (or no weight column exists) the
+sky position of row `i` is the same in both catalogs.  In other words: the two groups differ only in sources that
+are unmatched, have a non-positive weight, or are matched to a reference row with a non-positive weight.
+Then (`GWL.SameResult`): both runs raise the same exception or return the same boolean; they write the same fit
+(the whole `iter_linear_fit` result and the re-centred `(matrix, shift)`); every member ends in the same corrector
+state, hence has the same corrected WCS at every pixel; every row that was equal before is equal after; `fitmask`
+is `False` on every pair with a non-positive weight.  NOT claimed (it is false): the recomputed `RA, DEC` of the
+moved rows themselves agree. -/
+theorem group_zero_weight_source_irrelevant {C : Type} (ops : CorrOps C K) (cfg : FitCfg K)
+    (ms1 ms2 : List (GMember C K)) (hcorr : ms1.map (·.corr) = ms2.map (·.corr))
+    (st1 : GState K) (rows2 : List (GRow K)) (hl : rows2.length = st1.rows.length) (hne : st1.catlen ≠ 0)
+    (ref : RefCat K) (mref minput : List Int) (minobj : Option Nat) (fitmin : Nat)
+    (hag : ∀ inp rf, normAll st1.catlen minput = some inp → normAll ref.radec.length mref = some rf →
+      ∀ k i j : Nat, inp[k]? = some i → rf[k]? = some j → PosW st1.weight i → PosW ref.weight j →
+        (st1.rows[i]?).map (·.radec) = (rows2[i]?).map (·.radec)) :
+    SameResult ops ms1 ms2 st1.rows rows2
+      (groupAlignToRef ops cfg ms1 st1 ref (some (mref, minput)) minobj fitmin)
+      (groupAlignToRef ops cfg ms2 { st1 with rows := rows2 } ref (some (mref, minput)) minobj fitmin) :=
+  zw_two_runs ops cfg ms1 ms2 hcorr st1 rows2 hl hne ref mref minput minobj fitmin hag
+
+/-- … all members FITS (flat sky): the same WCS as maps pixel → sky, member by member -/
+theorem group_zero_weight_source_irrelevant_fits (P : Aff K) (δ : Nat → V2 K → V2 K) (cfg : FitCfg K)
+    (ms1 ms2 : List (GMember (FState K) K)) (hcorr : ms1.map (·.corr) = ms2.map (·.corr))
+    (st1 : GState K) (rows2 : List (GRow K)) (hl : rows2.length = st1.rows.length) (hne : st1.catlen ≠ 0)
+    (ref : RefCat K) (mref minput : List Int) (minobj : Option Nat) (fitmin : Nat)
+    (hag : ∀ inp rf, normAll st1.catlen minput = some inp → normAll ref.radec.length mref = some rf →
+      ∀ k i j : Nat, inp[k]? = some i → rf[k]? = some j → PosW st1.weight i → PosW ref.weight j →
+        (st1.rows[i]?).map (·.radec) = (rows2[i]?).map (·.radec)) :
+    SameResult (fitsOps P δ) ms1 ms2 st1.rows rows2
+      (groupAlignToRef (fitsOps P δ) cfg ms1 st1 ref (some (mref, minput)) minobj fitmin)
+      (groupAlignToRef (fitsOps P δ) cfg ms2 { st1 with rows := rows2 } ref (some (mref, minput)) minobj fitmin) ∧
+    ∀ (p : Nat) (g1 g2 : GMember (FState K) K),
+      (groupAlignToRef (fitsOps P δ) cfg ms1 st1 ref (some (mref, minput)) minobj fitmin).members[p]? = some g1 →
+      (groupAlignToRef (fitsOps P δ) cfg ms2 { st1 with rows := rows2 } ref (some (mref, minput)) minobj
+        fitmin).members[p]? = some g2 →
+      g1.corr = g2.corr ∧ ∀ x, g1.corr.f.detToWorld (δ p) x = g2.corr.f.detToWorld (δ p) x := by
+  have h := zw_two_runs (fitsOps P δ) cfg ms1 ms2 hcorr st1 rows2 hl hne ref mref minput minobj fitmin hag
+  refine ⟨h, fun p g1 g2 h1 h2 => ?_⟩
+  have := congrArg (·[p]?) h.corr
+  simp only [List.getElem?_map, h1, h2, Option.map_some, Option.some.injEq] at this
+  exact ⟨this, fun x => by rw [this]⟩
+
+/-- … all members gWCS -/
+theorem group_zero_weight_source_irrelevant_gwcs (env : Nat → GEnv K) (refW2T refT2W : V2 K → V2 K) (s0 : Nat → K)
+    (cfg : FitCfg K) (ms1 ms2 : List (GMember (GCorr K) K)) (hcorr : ms1.map (·.corr) = ms2.map (·.corr))
+    (st1 : GState K) (rows2 : List (GRow K)) (hl : rows2.length = st1.rows.length) (hne : st1.catlen ≠ 0)
+    (ref : RefCat K) (mref minput : List Int) (minobj : Option Nat) (fitmin : Nat)
+    (hag : ∀ inp rf, normAll st1.catlen minput = some inp → normAll ref.radec.length mref = some rf →
+      ∀ k i j : Nat, inp[k]? = some i → rf[k]? = some j → PosW st1.weight i → PosW ref.weight j →
+        (st1.rows[i]?).map (·.radec) = (rows2[i]?).map (·.radec)) :
+    SameResult (gwcsOps env refW2T refT2W s0) ms1 ms2 st1.rows rows2
+      (groupAlignToRef (gwcsOps env refW2T refT2W s0) cfg ms1 st1 ref (some (mref, minput)) minobj fitmin)
+      (groupAlignToRef (gwcsOps env refW2T refT2W s0) cfg ms2 { st1 with rows := rows2 } ref (some (mref, minput))
+        minobj fitmin) :=
+  zw_two_runs _ cfg ms1 ms2 hcorr st1 rows2 hl hne ref mref minput minobj fitmin hag
+
+/-- **exactness at group level from the POSITIVELY WEIGHTED pairs (`general` fit, any ordered field, FITS
+members).**  As `group_align_exact_general`, but `hT` — the reference position of pair `k` is `T` of the plane
+position of group row `minput[k]` — is required only of the pairs whose group row and reference row both carry a
+positive weight (or whose catalog has no weight column); all other matched pairs are arbitrary (outliers).
+Conclusion (`GWL.MovedByOn`): the reported fit is `T`; EVERY member is moved by `T`; every recomputed row is the
+corrected position of its member's source; the rows of the positively weighted pairs land on their reference
+positions. -/
+theorem group_align_exact_weighted (P : Aff K) (hP : P.m.det ≠ 0) (δ : Nat → V2 K → V2 K)
+    (eps epsD : K) (heps : 0 < eps) (nrm : Bool) (mt : Metric K) (fm : Nat) (nclip : Option Int)
+    (sigma : Option (K × String)) (accum : Bool) (ms : List (GMember (FState K) K))
+    (hgood : ∀ (p : Nat) (gm : GMember (FState K) K), ms[p]? = some gm →
+      gm.corr.f.WF ∧ gm.corr.hx ≠ 0 ∧ gm.corr.hy ≠ 0)
+    (w0 : Nat → K × K → K × K) (st0 : GState K) (hc : createGroup w0 (ms.map (·.cat)) = .ok st0)
+    (hist : List (GC.GOp K)) (hcur : Current (fitsOps P δ) ms (run st0 hist))
+    (hne : (run st0 hist).catlen ≠ 0) (ref : RefCat K) (mref minput : List Int)
+    (minobj : Option Nat) (fitmin : Nat) (r : IterRes K) (f : Aff K)
+    (hfit : (groupAlignToRef (fitsOps P δ) ⟨fitGeneral eps epsD, nrm, mt, fm, nclip, sigma, accum⟩ ms
+      (run st0 hist) ref (some (mref, minput)) minobj fitmin).fit = some (r, f))
+    (inp rf : List Nat) (hin : normAll (run st0 hist).catlen minput = some inp)
+    (hrf : normAll ref.radec.length mref = some rf)
+    (T : Lin K) (hdetT : T.m00 * T.m11 - T.m01 * T.m10 ≠ 0)
+    (hT : ∀ (k i j : Nat) (row : GRow K) (rd : K × K), inp[k]? = some i → rf[k]? = some j →
+      PosW (run st0 hist).weight i → PosW ref.weight j →
+      (run st0 hist).rows[i]? = some row → ref.radec[j]? = some rd →
+      P.app (toV rd) = C01.Lin.app T (P.app (toV row.radec))) :
+    MovedByOn (fitsOps P δ) ms (run st0 hist)
+      (groupAlignToRef (fitsOps P δ) ⟨fitGeneral eps epsD, nrm, mt, fm, nclip, sigma, accum⟩ ms (run st0 hist)
+        ref (some (mref, minput)) minobj fitmin) ref inp rf f T :=
+  group_exact_general_on w0 _ fitsGood (fits_applies P hP δ) eps epsD heps nrm mt fm nclip sigma accum ms hgood st0 hc
+    hist hcur hne ref mref minput minobj fitmin r f hfit inp rf hin hrf T hdetT hT
+
+/-- … and gWCS members -/
+theorem group_align_exact_weighted_gwcs (env : Nat → GEnv K) (refW2T refT2W : V2 K → V2 K)
+    (hr1 : ∀ w, refT2W (refW2T w) = w) (s0 : Nat → K)
+    (eps epsD : K) (heps : 0 < eps) (nrm : Bool) (mt : Metric K) (fm : Nat) (nclip : Option Int)
+    (sigma : Option (K × String)) (accum : Bool) (ms : List (GMember (GCorr K) K))
+    (hgood : ∀ (p : Nat) (gm : GMember (GCorr K) K), ms[p]? = some gm →
+      (env p).Bij ∧ gm.corr.WF ∧ s0 p ≠ 0 ∧
+        ∃ q : Aff K, q.m.det ≠ 0 ∧ ∀ x, gm.corr.worldToTanp (env p) (refT2W x) = q.app x)
+    (w0 : Nat → K × K → K × K) (st0 : GState K) (hc : createGroup w0 (ms.map (·.cat)) = .ok st0)
+    (hist : List (GC.GOp K)) (hcur : Current (gwcsOps env refW2T refT2W s0) ms (run st0 hist))
+    (hne : (run st0 hist).catlen ≠ 0) (ref : RefCat K) (mref minput : List Int)
+    (minobj : Option Nat) (fitmin : Nat) (r : IterRes K) (f : Aff K)
+    (hfit : (groupAlignToRef (gwcsOps env refW2T refT2W s0) ⟨fitGeneral eps epsD, nrm, mt, fm, nclip, sigma, accum⟩
+      ms (run st0 hist) ref (some (mref, minput)) minobj fitmin).fit = some (r, f))
+    (inp rf : List Nat) (hin : normAll (run st0 hist).catlen minput = some inp)
+    (hrf : normAll ref.radec.length mref = some rf)
+    (T : Lin K) (hdetT : T.m00 * T.m11 - T.m01 * T.m10 ≠ 0)
+    (hT : ∀ (k i j : Nat) (row : GRow K) (rd : K × K), inp[k]? = some i → rf[k]? = some j →
+      PosW (run st0 hist).weight i → PosW ref.weight j →
+      (run st0 hist).rows[i]? = some row → ref.radec[j]? = some rd →
+      refW2T (toV rd) = C01.Lin.app T (refW2T (toV row.radec))) :
+    MovedByOn (gwcsOps env refW2T refT2W s0) ms (run st0 hist)
+      (groupAlignToRef (gwcsOps env refW2T refT2W s0) ⟨fitGeneral eps epsD, nrm, mt, fm, nclip, sigma, accum⟩ ms
+        (run st0 hist) ref (some (mref, minput)) minobj fitmin) ref inp rf f T :=
+  group_exact_general_on w0 _ (gwcsGood env refT2W s0) (gwcs_applies env refW2T refT2W hr1 s0) eps epsD heps nrm mt fm
+    nclip sigma accum ms hgood st0 hc hist hcur hne ref mref minput minobj fitmin r f hfit inp rf hin hrf T hdetT hT
+
+/-! ### non-vacuity (exact rationals): the group `GAL.gaMsZ x` — three FITS members, the middle one without sources;
+the second source of member 2 (group row 4, pair 0 of the match) has weight 0 and sits at the pixel `x` -/
+
+-- hypotheses of `group_zero_weight_source_irrelevant` for `x = (1, 1)` (the true pixel) and `x = (50, -7)`: the two
+-- group catalogs have the same member lengths, weight column and number of rows; they differ in row 4 only (pixel
+-- AND sky position); row 4 has weight 0; pair 0 is the pair of row 4
+example :
+    (match createGroupOf gaOps (gaMsZ (1, 1)), createGroupOf gaOps (gaMsZ (50, -7)) with
+     | .ok st1, .ok st2 =>
+       st1.memberLens == st2.memberLens && st1.weight == st2.weight && st1.weight == some [1, 2, 1, 3, 0, 2] &&
+       st1.rows.length == 6 && st2.rows.length == 6 &&
+       [0, 1, 2, 3, 5].all (fun i => (st1.rows[i]?).map (fun r => (r.imcatIdx, r.id, r.xy, r.radec))
+          == (st2.rows[i]?).map (fun r => (r.imcatIdx, r.id, r.xy, r.radec))) &&
+       (st1.rows[4]?).map (·.xy) != (st2.rows[4]?).map (·.xy) &&
+       (st1.rows[4]?).map (·.radec) != (st2.rows[4]?).map (·.radec) &&
+       normAll st1.catlen [4, 0, -1, 2] == some [4, 0, 5, 2]
+     | _, _ => false) = true := by decide +kernel
+
+-- … and its conclusions read off the two runs: the same fit `gaT`, the same `fitmask` (pair 0 unused), the same
+-- corrected WCS of all three members (catalog pixels and others), the same recomputed sky positions of all rows
+-- except row 4 — whose recomputed positions differ, as they must
+example :
+    (match groupAlign gaOps gaCfg (gaMsZ (1, 1)) gaRef gaMatch none 3,
+           groupAlign gaOps gaCfg (gaMsZ (50, -7)) gaRef gaMatch none 3 with
+     | .ok R1, .ok R2 =>
+       (R1.res.toOption.map (·.1) == some true) && (R2.res.toOption.map (·.1) == some true) &&
+       (R1.fit.map (·.2) == R2.fit.map (·.2)) && (R1.fit.map (·.2) == some ⟨⟨2, -1, -1, 3⟩, ⟨1, 1⟩⟩) &&
+       (R1.fit.map (·.1.fitmask) == R2.fit.map (·.1.fitmask)) &&
+       (R1.fit.map (·.1.fitmask) == some [false, true, true, true]) &&
+       (R1.fit.map (·.1.center) == R2.fit.map (·.1.center)) &&
+       (R1.fit.map (·.1.resids) == R2.fit.map (·.1.resids)) &&
+       (List.range 3).all (fun p => gaPix.all fun x =>
+          match R1.members[p]?, R2.members[p]? with
+          | some g1, some g2 => g1.corr.f.detToWorld (gaDelta p) x == g2.corr.f.detToWorld (gaDelta p) x
+          | _, _ => false) &&
+       [0, 1, 2, 3, 5].all (fun i => (R1.st.rows[i]?).map (·.radec) == (R2.st.rows[i]?).map (·.radec)) &&
+       (R1.st.rows[4]?).map (·.radec) != (R2.st.rows[4]?).map (·.radec)
+     | _, _ => false) = true := by decide +kernel
+
+-- `group_align_exact_weighted`: with the zero-weight source at `(50, -7)` pair 0 is a gross outlier — the hypothesis
+-- `hT` of `group_align_exact_general` FAILS for it — while the positively weighted pairs 1, 2, 3 (rows 0, 5, 2;
+-- reference rows 0, 3, 1) are noise-free for `gaT`; the alignment succeeds, the reported fit is `gaT`, all three
+-- members are moved by `gaT` in the plane, rows 0, 5, 2 land on their reference positions and row 4 does not
+example :
+    (match createGroupOf gaOps (gaMsZ (50, -7)), groupAlign gaOps gaCfg (gaMsZ (50, -7)) gaRef gaMatch none 3 with
+     | .ok st0, .ok R =>
+       st0.weight == some [1, 2, 1, 3, 0, 2] && gaRef.weight == none &&
+       (List.zip [0, 5, 2] [0, 3, 1]).all (fun ij =>
+         match st0.rows[ij.1]?, gaRef.radec[ij.2]? with
+         | some row, some rd => gaP.app (toV rd) == C01.Lin.app gaT (gaP.app (toV row.radec))
+         | _, _ => false) &&
+       (match st0.rows[4]?, gaRef.radec[2]? with
+         | some row, some rd => gaP.app (toV rd) != C01.Lin.app gaT (gaP.app (toV row.radec))
+         | _, _ => false) &&
+       (R.res.toOption.map (·.1) == some true) &&
+       (R.fit.map (·.2) == some ⟨⟨2, -1, -1, 3⟩, ⟨1, 1⟩⟩) &&
+       (List.range 3).all (fun p => gaPix.all fun x =>
+          match (gaMsZ (50, -7))[p]?, R.members[p]? with
+          | some gm, some gm' =>
+            gaP.app (gm'.corr.f.detToWorld (gaDelta p) x)
+              == C01.Lin.app gaT (gaP.app (gm.corr.f.detToWorld (gaDelta p) x))
+          | _, _ => false) &&
+       ([0, 5, 2].map (fun i => (R.st.rows[i]?).map (·.radec)) == [0, 3, 1].map (fun j => gaRef.radec[j]?)) &&
+       ((R.st.rows[4]?).map (·.radec) != gaRef.radec[2]?)
+     | _, _ => false) = true := by decide +kernel
+
+end groupWeights
+end TW.C05
+
